@@ -13,7 +13,7 @@ LEVEL_NOTE = "proof for the model half, correspondence for the exception-class c
 TECHNIQUE = 'Lean 4 totality/no-stray theorems on the model + differential correspondence on a malformed stream + exception-class oracle'
 RULE = ("PHIL-biased token soup, mutated valid documents (parse), name=value soups (argument interpreter), value texts incl. "
         "inf/nan/1e999/empty brackets/unbalanced parentheses for every built-in type with constructor arguments (fetch, extract, "
-        "validate), attribute texts, '.expert_level' spellings x ambiguous arguments (finding D78); non-trivial = the call raised or the text has > 3 tokens; distinct = (stream, text)")
+        "validate), attribute texts, '.expert_level' spellings x ambiguous arguments (finding D78), environment variables unset / empty / blank / one word / several words referenced as $V, $(V), quoted, embedded and mixed in values of every built-in type through the file and command-line routes (fetch, extract, format, validate; oracle only); non-trivial = the call raised or the text has > 3 tokens; distinct = (stream, text)")
 ASSUMPTIONS = ["type names in hostile texts are built-in names or undotted misspellings (a dotted non-built-in type name makes "
                "the code import arbitrary modules, outside the property's 'built-in type names')"]
 
@@ -127,6 +127,42 @@ def typed_master(t):
     return _masters[t]
 
 
+def env_case(mt, route, home, text, ref, env):
+    """outcome class of: set os.environ as `env` (None = unset), fetch `text` (a parameter file, or one command-line
+    argument with home scope `home`) against master `mt`, then extract / format / validate every fetched definition"""
+    import os
+    saved = {k: os.environ.get(k) for k in env}
+    try:
+        for k, ev in env.items():
+            if ev is None:
+                os.environ.pop(k, None)
+            else:
+                os.environ[k] = ev
+
+        def fenv():
+            m = freephil.parse(input_string=mt)
+            if route == "file":
+                w = m.fetch(source=freephil.parse(input_string=text, source_info="user.phil"))
+            else:
+                w = m.command_line_argument_interpreter(home_scope=home).process_and_fetch(args=[text])
+            for loc in w.all_definitions():
+                d = loc.object
+                d.try_extract()
+                d.try_extract_format()
+                d.validate(input_string=ref)
+                d.validate_and_format(input_string=ref)
+            m.format(python_object=w.extract())
+            w.extract_format()
+            m.fetch(source=w)
+        return guarded(fenv)
+    finally:
+        for k, ev in saved.items():
+            if ev is None:
+                os.environ.pop(k, None)
+            else:
+                os.environ[k] = ev
+
+
 def run(ctx):
     rng = ctx.rng
     n = ctx.scale(6000, 100000, 20000)
@@ -207,6 +243,47 @@ def run(ctx):
             d78 = any(l.strip().lower() == ".expert_level = auto" for l in mt.splitlines())
             ctx.fail({"stream": "expert_levels", "master": mt, "arg": arg}, "argument interpreter: %s" % (out,),
                      finding=["D78"] if d78 and out[1] == "TypeError" else None)
+    # ---- state outside the text: environment variables that are unset, set but EMPTY, blank, one word or several words,
+    #      referenced in every shape ($V, $(V), quoted, embedded, mixtures) as the value of a parameter of every built-in
+    #      type (plain, .multiple, mandatory), through the file route and the command-line route, then extract / format /
+    #      validate of the fetched definition.  The model takes os.environ as a parameter of the substitution and the parse
+    #      correspondence does not see it: impl-only stream (counted as env_*).
+    env_names = ["PHIL_C16_V", "PHIL_C16_W"]
+    for i in range(ctx.scale(700, 12000, 2500)):
+        if ctx.time_left() < 35:
+            break
+        env = {}
+        for k in env_names:
+            ev = rng.choice([None, "", "", " ", "   ", "\t", " \t ", "1", "2", " 1", "1 ", "1 2", "1  2 3", "a b", "x", "*x", "x y",
+                             "None", "Auto", "True", "1.5 x", "a.mtz b.mtz", "'", '"', "1;2", "#", "$PHIL_C16_W", "{", "é"])
+            env[k] = ev
+        ref = rng.choice(["$%s", "$%s", "$(%s)", "$(%s)", '"$%s"', '"$(%s)"', "'$%s'", "pre$%s", "$(%s)post", "$%s.x", "*$%s",
+                          "1 $%s", "$(%s) 1", "$%s $(PHIL_C16_W)", "$%s$PHIL_C16_W", "$(%s)$(PHIL_C16_W)", '"$%s $PHIL_C16_W"',
+                          "$(%s) x $PHIL_C16_W", "$%s #c", "\\$%s"]) % "PHIL_C16_V"
+        t = rng.choice(TYPES)
+        attrs = rng.choice(["", "", "  .multiple = True\n", "  .optional = False\n", "  .optional = True\n"])
+        # (a choice master whose words are a plain None is ill-formed: the code asserts it away)
+        default = rng.choice(["x *y z", "x y z", "*1 2"]) if t and t.startswith("choice") else rng.choice(["None", "None", "1"])
+        mt = "v = %s\n%s%s" % (default, "" if t is None else "  .type = %s\n" % t, attrs)
+        if rng.random() < 0.3:
+            mt = "s {\n%s}\n" % "".join("  " + l + "\n" for l in mt.splitlines())
+        path = "s.v" if mt.startswith("s {") else "v"
+        route = rng.choice(["file", "file", "argv", "argv_home"])
+        st = rng.choice(["%s = %s\n", "%s = %s\n", "%s=%s;%s = 1\n" % ("%s", "%s", path), "%s = %s\n%s = $(v)\n" % ("%s", "%s", path)]) % (path, ref)
+        arg = "%s=%s" % (path if route == "argv" else "v", ref)
+
+        home = "s" if route == "argv_home" and path != "v" else None
+        text = st if route == "file" else arg
+        out = env_case(mt, route, home, text, ref, env)
+        ctx.case(("env", mt, route, text, tuple(sorted(env.items(), key=str))), nontrivial=True)
+        ctx.count("env_%s_%s" % (route.split("_")[0], out if isinstance(out, str) else out[0]))
+        if any(v is not None and not v.strip() for v in env.values()):
+            ctx.count("env_empty_or_blank")
+        if i % 100 == 0:
+            ctx.sample({"stream": "env", "master": mt, "route": route, "text": text, "environ": env, "outcome": out})
+        if not isinstance(out, str):
+            ctx.fail({"stream": "env", "master": mt, "route": route, "home_scope": home, "text": text, "ref": ref, "environ": env},
+                     "fetch/extract/validate with environment variables: %s" % (out,))
     for i in range(n):
         if ctx.time_left() < 25:
             ctx.notes.append("stopped early on time budget")
@@ -354,4 +431,8 @@ def finding_still_fails(f):
 def replay(payload):
     c = payload["failure"]["case"]
     print(c)
+    if c.get("stream") == "env":
+        out = env_case(c["master"], c["route"], c.get("home_scope"), c["text"], c["ref"], c["environ"])
+        print(out)
+        return isinstance(out, str)
     return False
